@@ -179,6 +179,10 @@ class MergeContract(Contract):
         out += [(n, f) for n, f in ro_inv(W, ex.H, root, 'C14+RO_Inv.preserved')]
         out += [(n, f) for n, f in ownership(ex.H, 'C13.ownership_preserved')]
         out += self.frame_clauses(cx, ex)
+        if self.cls_name != 'RunningOrderEnd':
+            # refinement of the abstract merge contract: only a roDelete completes a running order
+            out.append(('C07.no_spurious_completion',
+                        ex.H.find(root, W.lit('mosromgrmeta')) == cx.H.find(root, W.lit('mosromgrmeta'))))
         return out
 
     def frame_clauses(self, cx, ex):
